@@ -767,29 +767,55 @@ func checkAuthentication(validCredentials []Credentials, expectedRegion string, 
 
 	if isAwsChunked {
 		slog.DebugContext(r.Context(), "Request is using AWS Chunked Transfer Encoding")
-		contentSHA256 := r.Header.Get(contentSHA256Header)
-		if !verifier.acceptsStreamingPayload(contentSHA256) {
+		if !verifier.acceptsStreamingPayload(r.Header.Get(contentSHA256Header)) {
 			slog.DebugContext(r.Context(), "Streaming payload algorithm does not match request signature algorithm")
 			return nil, false
 		}
-		// aws-chunked is a transport encoding, not object metadata: strip it
-		// whether it is the only encoding or the first of several.
-		contentEncodingHeader = stripAwsChunkedContentEncoding(contentEncodingHeader)
-		if contentEncodingHeader != "" {
-			r.Header.Set("Content-Encoding", contentEncodingHeader)
-		} else {
-			r.Header.Del("Content-Encoding")
-		}
-		r.Header.Set("Content-Length", r.Header.Get("x-amz-decoded-content-length"))
-		r.Header.Del("x-amz-decoded-content-length")
-		trailingHeader := contentSHA256 == contentSHA256StreamingUnsignedPayloadTrailing || contentSHA256 == contentSHA256StreamingPayloadTrailing || contentSHA256 == contentSHA256StreamingECDSAPayloadTrailing
-		hasTrailingHeaderWithSignature := contentSHA256 == contentSHA256StreamingPayloadTrailing || contentSHA256 == contentSHA256StreamingECDSAPayloadTrailing
-		skipChunkValidation := contentSHA256 == contentSHA256StreamingUnsignedPayloadTrailing || contentSHA256 == contentSHA256StreamingUnsignedPayload
-		trailerChecksumName := strings.ToLower(strings.TrimSpace(r.Header.Get(trailerHeader)))
-		r.Body = newAwsChunkReadCloser(r.Context(), r.Body, parameters.timestamp, scope.value, parameters.signature, verifier, trailingHeader, hasTrailingHeaderWithSignature, skipChunkValidation, trailerChecksumName)
+		installAwsChunkedDecoder(r, parameters.timestamp, scope.value, parameters.signature, &verifier)
 	}
 
 	return &accessKeyId, isSignatureValid
+}
+
+// installAwsChunkedDecoder replaces the body of an aws-chunked request by the
+// decoded payload and rewrites the transport headers. With a nil verifier
+// (anonymous request, authentication disabled) chunk and trailer signatures
+// cannot be checked; framing and trailer checksum still are.
+func installAwsChunkedDecoder(r *http.Request, timestamp string, scope string, seedSignature string, verifier *signatureVerifier) {
+	contentSHA256 := r.Header.Get(contentSHA256Header)
+	// aws-chunked is a transport encoding, not object metadata: strip it
+	// whether it is the only encoding or the first of several.
+	contentEncodingHeader := stripAwsChunkedContentEncoding(r.Header.Get("Content-Encoding"))
+	if contentEncodingHeader != "" {
+		r.Header.Set("Content-Encoding", contentEncodingHeader)
+	} else {
+		r.Header.Del("Content-Encoding")
+	}
+	r.Header.Set("Content-Length", r.Header.Get("x-amz-decoded-content-length"))
+	r.Header.Del("x-amz-decoded-content-length")
+	trailingHeader := contentSHA256 == contentSHA256StreamingUnsignedPayloadTrailing || contentSHA256 == contentSHA256StreamingPayloadTrailing || contentSHA256 == contentSHA256StreamingECDSAPayloadTrailing
+	hasTrailingHeaderWithSignature := contentSHA256 == contentSHA256StreamingPayloadTrailing || contentSHA256 == contentSHA256StreamingECDSAPayloadTrailing
+	skipChunkValidation := contentSHA256 == contentSHA256StreamingUnsignedPayloadTrailing || contentSHA256 == contentSHA256StreamingUnsignedPayload
+	var v signatureVerifier
+	if verifier == nil {
+		skipChunkValidation = true
+		hasTrailingHeaderWithSignature = false
+	} else {
+		v = *verifier
+	}
+	trailerChecksumName := strings.ToLower(strings.TrimSpace(r.Header.Get(trailerHeader)))
+	r.Body = newAwsChunkReadCloser(r.Context(), r.Body, timestamp, scope, seedSignature, v, trailingHeader, hasTrailingHeaderWithSignature, skipChunkValidation, trailerChecksumName)
+}
+
+// MakeAwsChunkedDecodingMiddleware decodes aws-chunked request bodies of
+// requests that do not pass through checkAuthentication.
+func MakeAwsChunkedDecodingMiddleware(next http.Handler) http.Handler {
+	return http.HandlerFunc(func(w http.ResponseWriter, r *http.Request) {
+		if hasAwsChunkedContentEncoding(r.Header.Get("Content-Encoding")) {
+			installAwsChunkedDecoder(r, "", "", "", nil)
+		}
+		next.ServeHTTP(w, r)
+	})
 }
 
 type awsChunkReadCloser struct {
@@ -1049,6 +1075,9 @@ func MakeSignatureMiddleware(validCredentials []Credentials, region string, next
 			ctx := context.WithValue(r.Context(), IsAuthenticatedContextKey{}, false)
 			ctx = context.WithValue(ctx, AuthTypeContextKey{}, authTypeForRequest(r))
 			r = r.Clone(ctx)
+			if hasAwsChunkedContentEncoding(r.Header.Get("Content-Encoding")) {
+				installAwsChunkedDecoder(r, "", "", "", nil)
+			}
 			next.ServeHTTP(w, r)
 			return
 		}
